@@ -160,6 +160,9 @@ async fn run(script: &Value) -> Result<(), Fail> {
     if cfgj["missing"] == "allow" {
         cfg.state.missing_server_state = MissingServerState::Allow;
     }
+    if cfgj["cookie_kind"] == "session" {
+        cfg.cookie.kind = pavex_session::config::SessionCookieKind::Session;
+    }
     let allow = cfg.state.missing_server_state == MissingServerState::Allow;
     let never_skip = cfg.state.server_state_creation == ServerStateCreation::NeverSkip;
     // optional: session cookie configuration and the middleware path (C12)
